@@ -426,7 +426,7 @@ SPECS = {
             "assumptions": ["the spec encoder in harness/refserver/c13_wire_test.go follows the Connect and gRPC protocol documents"]},
     "C15": {"fn": c15, "level": "exploration",
             "technique": "runtime monitoring under the race detector: scripted inner net.Conn (every Read/Write result logged) around the real TracingHTTP2Conn; generated multi-stream HTTP/2 exchanges re-interleaved and re-partitioned, compared with an independent per-stream trace model; seeded structure-aware mutation and ordering faults for the no-crash/transparency clause",
-            "text": "Well-formed exchanges (1-6 concurrent streams, HEADERS/CONTINUATION, DATA cutting envelopes anywhere, request/response trailers, RST_STREAM from either side, REFUSED_STREAM+retry, GOAWAY, shared HPACK state) are fed through the real connection tracer on client and server side under 4 schedules and random Read/Write partitions; each named stream must yield exactly one trace equal to the model (request line, own headers, messages in order, status, trailers, end/reset). 10^4-10^6 mutated, random and mis-ordered streams must never panic and every Read/Write must return exactly what the inner conn did. The last bytes of a connection are also delivered together with io.EOF, and a retry-timer part drives the 3 s hold-back of refused streams with real, generously spaced delays (double refusal chain, retry followed by silence, refusal never retried); schedules stretched by the machine are inconclusive.",
+            "text": "Well-formed exchanges (1-6 concurrent streams, HEADERS/CONTINUATION, DATA cutting envelopes anywhere, request/response trailers, RST_STREAM from either side, REFUSED_STREAM+retry, GOAWAY, shared HPACK state) are fed through the real connection tracer on client and server side under 4 schedules and random Read/Write partitions; each named stream must yield exactly one trace equal to the model (request line, own headers, messages in order, status, trailers, end/reset). 10^4-10^6 mutated, random and mis-ordered streams must never panic and every Read/Write must return exactly what the inner conn did. The last bytes of a connection are also delivered together with io.EOF, and a retry-timer part drives the 3 s hold-back of refused streams with real, generously spaced delays (double refusal chain, retry followed by silence, refusal never retried); schedules stretched by the machine are inconclusive. A real-traffic part runs golang.org/x/net/http2's own Transport and Server over loopback TCP with the tracer wrapped around both connection ends (concurrent calls, messages beyond the flow-control window, handler aborts, client cancels) and requires, on both sides, exactly one trace per call whose message events equal the messages the applications exchanged.",
             "note": "Real grpc-go traffic through the tracer is exercised by C01's --trace runs on race-built binaries; a stream cut exactly after an envelope prefix may or may not report a zero-length partial event.",
             "assumptions": ["x/net/http2 Framer and hpack encoder generate well-formed frames"]},
     "C11": {"fn": c11, "level": "fault_enumeration",
